@@ -37,7 +37,8 @@ func verifSet(key string, fn any, i int) {
 
 # ------------------------------------------------------------------ generation
 def gen_packages(run, n):
-    pkgs, stats = [], {"regenerated": 0, "outside_guard_kept": 0, "fatal_expected": 0}
+    pkgs, stats = [], {"regenerated": 0, "outside_guard_kept": 0, "fatal_expected": 0, "embed_order_class": 0,
+                   "grouped_declarations": 0}
     k = 0
     while len(pkgs) < n:
         k += 1
@@ -61,13 +62,17 @@ def gen_packages(run, n):
             stats["regenerated"] += 1
             if k < 60 * n:
                 continue
-        order = list(selected)
-        if run.rng.random() < 0.5:
-            run.rng.shuffle(order)
+        order = list(selected)                       # declaration order = dependency order
+        if run.rng.random() < 0.25:
+            run.rng.shuffle(order)                   # possibly a struct before one it embeds: the K_embed_order class
         pkg["order"] = order
         pkg["rounds"] = 2 if run.rng.random() < 0.2 else 1
+        ctoracc.add_groups(run.rng, pkg)
         pkg["classes"] = classes
+        pkg["complete_order"] = ctoracc.complete_order(pkg, order)
         stats["outside_guard_kept"] += 1 if "out" in classes else 0
+        stats["embed_order_class"] += 1 if (pkg["rounds"] == 1 and not pkg["complete_order"]) else 0
+        stats["grouped_declarations"] += 1 if pkg.get("groups") else 0
         stats["fatal_expected"] += 1 if fatal else 0
         pkgs.append(pkg)
     return pkgs, stats
@@ -133,7 +138,7 @@ def observe(run, shoot, accbin, modname, pkgs, extra_flags=()):
     mod = ctorlib.setup_module(run, modname)
     jobs = []
     for pkg in pkgs:
-        l2.write_files(mod / pkg["name"], ctorgen.render_go(pkg, modname))
+        l2.write_files(mod / pkg["name"], ctoracc.render_go(pkg, modname))
         args = ["new", "-getset"] + list(extra_flags) + ["-type=" + ",".join(pkg["order"])]
         pkg["args"] = args
         jobs.append((pkg["name"], args))
@@ -191,7 +196,7 @@ def observe(run, shoot, accbin, modname, pkgs, extra_flags=()):
             sd["_runs"] = runs
             body += text
         if body:
-            text = "".join(ctorgen.render_go(pkg, modname).values())
+            text = "".join(ctoracc.render_go(pkg, modname).values())
             bodies[pkg["name"]] = oracle_file(pkg, body, '"time"' in text, "/helper" in text, modname)
     for d, t in bodies.items():
         l2.write_files(mod / d, {"zz_oracle_verif.go": t})
@@ -274,7 +279,7 @@ def replay_record(pkg, obs, verdict, modname):
             "theorem": THEOREMS,
             "correspondence": "L2:C03:accessor methods, interfaces, method sets and set-then-get runs vs Model/CtorGetSet.v",
             "spec": ctoracc.spec_json(pkg), "order": pkg["order"], "rounds": pkg["rounds"],
-            "sources": ctorgen.render_go(pkg, modname), "cmd": "shoot " + " ".join(pkg["args"]),
+            "sources": ctoracc.render_go(pkg, modname), "cmd": "shoot " + " ".join(pkg["args"]),
             "shoot": pkg.get("shoot"), "type_errors": pkg.get("type_errors"),
             "observed": [obs[(pkg["name"], t)] for t in pkg["order"] if (pkg["name"], t) in obs],
             "verdict": verdict,
@@ -379,8 +384,36 @@ def h_field_hides(run, shoot, accbin):
     return h
 
 
+def h_shadow_type_conflict(run, shoot):
+    def h(e):
+        r, gen, d = _gen(run, shoot, e)
+        if r["rc"] != 0:
+            return "other: exit %s: %s" % (r["rc"], r["err"][-200:])
+        ok, errs = l2.go_build(d.parent, ["./" + d.name])
+        if ok:
+            return "correct"
+        if "duplicate method Z" in str(errs):
+            return "buggy"
+        return "other: %s" % str(errs)[:300]
+    return h
+
+
+def h_typespec_doc(run, shoot):
+    def h(e):
+        r, gen, d = _gen(run, shoot, e)
+        if r["rc"] != 0:
+            return "other: exit %s: %s" % (r["rc"], r["err"][-200:])
+        a = "".join(t for n, t in gen.items() if n.endswith(".a.go"))
+        if "func (a *A) A() int" not in a:
+            return "other: A's getter not found"
+        return "buggy" if "func (a *A) SetA(" in a else "correct"
+    return h
+
+
 def finding_handlers(run, shoot, accbin=None):
     return {
+        "K_getset_shadow_type_conflict": h_shadow_type_conflict(run, shoot),
+        "K_getset_typespec_doc": h_typespec_doc(run, shoot),
         "K_getset_field_hides_accessor": h_field_hides(run, shoot, accbin),
         "K_getset_nil_named": h_nil_named(run, shoot),
         "K_getset_once_shadow": h_once_shadow(run, shoot),
@@ -418,6 +451,12 @@ def features(pkg, obs):
             bump("promoted_through_depth_2+")
         if sd["tparams"]:
             bump("generic")
+        own = [n for fd in sd["fields"] for n in fd["names"]]
+        deeper = [x[1] for x in ctorgen.occurrences(pkg, sd, [("param", n) for n in ctorgen.tparam_names(sd)]) if len(x[0]) > 1]
+        if set(own) & set(deeper):
+            bump("own_field_shadows_promoted")
+        if any(sd["name"] in g["names"] for g in (pkg.get("groups") or [])):
+            bump("in_grouped_declaration")
         if any(e.endswith("]") for e in (o["getter"] or {"embeds": []})["embeds"]):
             bump("embedded_generic_interface")
         bump("runs", len(o["runs"]))
@@ -484,13 +523,20 @@ def main(run):
     for i in (0, len(pkgs) // 2, len(pkgs) - 1):
         pkg = pkgs[i]
         samples.append({"package": pkg["name"], "cmd": "shoot " + " ".join(pkg["args"]), "rounds": pkg["rounds"],
-                        "source": "".join(ctorgen.render_go(pkg, "c03mod").values())[:1500],
+                        "source": "".join(ctoracc.render_go(pkg, "c03mod").values())[:1500],
                         "observed": [{k: (v[:2] if k == "runs" else v) for k, v in obs[(pkg["name"], t)].items()}
                                      for t in pkg["order"][:2] if (pkg["name"], t) in obs],
                         "verdict": verdicts.get(i, 0)})
-    vd = {}
-    for i in range(len(pkgs)):
-        vd[verdicts.get(i, 0)] = vd.get(verdicts.get(i, 0), 0) + 1
+    vd, why3 = {}, {}
+    for i, pkg in enumerate(pkgs):
+        v = verdicts.get(i, 0)
+        vd[v] = vd.get(v, 0) + 1
+        if v == 3:
+            unobs = any(obs[(pkg["name"], t)]["status"] != 0 for t in pkg["order"] if (pkg["name"], t) in obs)
+            reason = ("python_precheck_outside_guard" if "out" in pkg["classes"] else
+                      "embed_order_class" if (pkg["rounds"] == 1 and not pkg["complete_order"]) else
+                      "struct_not_observed" if unobs else "coq_guard_only")
+            why3[reason] = why3.get(reason, 0) + 1
     cov = {
         "evaluations": sum(len(o["runs"]) + 1 for o in obs.values()),
         "distinct_nontrivial": len(nontrivial),
@@ -510,6 +556,7 @@ def main(run):
         "programs": len(pkgs),
         "structs_observed_in_agreeing_packages": nstructs,
         "package_verdicts": {str(k): v for k, v in sorted(vd.items())},
+        "verdict_3_reasons": why3,
         "feature_counts": feat,
         "generator": gstats,
         "l1_transfer_calls": ncalls, "l1_directive_calls": dcalls, "l1_skipped": probe is None,
@@ -535,12 +582,20 @@ TRUSTED = [
 ]
 
 ASSUMPTIONS = c02.ASSUMPTIONS + [
-    "c03_guard additionally: no _-prefixed / new:\"-\" field in a selected struct (K_getset_excluded_field), the names of "
-    "a struct's own fields occur nowhere below its embedded fields and no plain field carries the name of an embedded "
-    "struct (K_getset_once_shadow), accessor fields start with a lower-case letter, and (for the method-set theorems) "
-    "every accessor method name is the name of exactly one member of the embedding closure",
-    "the interfaces of embedded shoot types are those present in the package view when the type is analysed "
-    "(K_embed_order: the view depends on the order of the types and on earlier runs; the model threads it explicitly)",
+    "c03_guard additionally: no _-prefixed / new:\"-\" field in a selected struct (K_getset_excluded_field); no occurrence "
+    "with the name of a field of the struct PRECEDES that field in depth-first declaration order and no plain field "
+    "carries the name of an embedded struct (K_getset_once_shadow; a field shadowing a promoted one declared after it is "
+    "inside the guard); accessor fields start with a lower-case letter",
+    "for the method-set statements: every accessor of the embedding closure is visible on *T (implied by unique accessor "
+    "names, C03_unique_names_visible; K_getset_field_hides_accessor, K_getset_shadow_type_conflict), acyclic embedding",
+    "the interfaces of embedded shoot types are those present in the package view when the type is analysed: inside the "
+    "guard every selected embedded struct precedes the struct in the -type order (or the command is run twice); a struct "
+    "analysed before one of its embedded structs is the input class of K_embed_order (verdict 3, counted as "
+    "embed_order_class); the model threads the view explicitly either way",
+    "type declarations are single or grouped `type ( ... )` with the directive on the group; a directive on a type spec "
+    "inside a group is ignored by shoot (K_getset_typespec_doc) and is not generated in the comparison stream",
+    "accessor bodies are given (`this.<f>` reads / assigns the declaring struct's own field, "
+    "C03_accessor_body_selects_own_field); the name -> field wiring of the template text is tied by the executed stream only",
 ]
 
 
@@ -553,6 +608,7 @@ def replay(run, path):
     shoot = run.build_shoot()
     accbin = run.build_helper("ctoracc")
     pkg = ctoracc.spec_from_json(r["spec"])
+    pkg["groups"] = r["spec"].get("groups") or []
     pkg["order"] = r["order"]
     pkg["rounds"] = r["rounds"]
     obs, mod = observe(run, shoot, accbin, "c03mod", [pkg])
